@@ -103,6 +103,10 @@ def cases(tier, seed):
         for op in ({'op': 'then_reset', 'pause': 0.0}, {'op': 'then_reset', 'pause': 0.02}, {'op': 'then_close'}):
             cs.append(dict({'T': T, 'conn': 0, 'at': 'kexinit'}, **op))
             cs.append(dict({'T': T, 'conn': 0, 'at': 'kexinit', 'eager': True}, **op))   # ... not even its identification string
+        # whether the reset reaches the tool before or after its own first writes is a race the peer cannot control: the same case several times, with several pauses
+        for rep_ in range(3):
+            for pause in (0.0, 0.005, 0.05):
+                cs.append({'T': T, 'conn': 0, 'at': 'kexinit', 'eager': True, 'op': 'then_reset', 'pause': pause, 'rep': rep_})
     # lines before the identification string AND the identification string cut in two: the first write ends inside the banner line
     for T in ('T1', 'T2'):
         for npre in (1, 3):
@@ -415,6 +419,9 @@ def run_case(c):
         r, p = audit.audit_server(s, ['-n'] + ([] if c.get('default_timeout') else ['-t', '1']) + list(c.get('opts', [])), monitors=mon, timeout=40 if c.get('default_timeout') else 120)
         tmo = 5.0 if c.get('default_timeout') else 1.0
     viol, counters = [], {}
+    if c.get('eager') and c['op'] == 'then_reset' and 'cannot connect to' in (r.out + r.err):
+        # the reset overtook the completion of connect(): the connection attempt itself failed, nothing the peer said was delivered to the tool - not a case of this property
+        return {'violations': [], 'counters': {'eager_reset_lost_at_connect': 1}, 'nontrivial': False, 'sample': {'case': c, 'status': r.status}, 'sample_kind': 'lost-at-connect'}
     if c.get('default_timeout'):
         counters['default_timeout_runs'] = 1
     applied = p.count('fault') > 0 or c['op'] in ('none', 'pre', 'segment')
